@@ -626,6 +626,9 @@ func (x *fx) run(args []Term, freeVars []Term, st *State, reach Term) {
 			x.vals[fv] = t
 		}
 		x.params[fv.Name()] = TV{T: x.vals[fv], Ty: fv.Type()}
+		if o, renamed := aliasesOf(fn).rev[fv.Name()]; renamed {
+			x.params[o] = x.params[fv.Name()] // a renamed captured variable keeps its recorded name in contracts
+		}
 	}
 	order := x.topo()
 	for _, b := range order {
